@@ -11,6 +11,7 @@ import json
 
 from harness.common.framework import Prop
 from harness import symcommon as sc
+from harness import c01lib
 
 F = sc.DEFAULT_FLAGS
 
@@ -279,12 +280,18 @@ class C01(Prop):
           'boundary-biased indices (len+d, -len+d), existing nodes offered as values (relocate-or-copy), '
           'change notification off in 0/25/90 % of the calls of a history. Non-trivial: at least 3 '
           'operations took effect (outcome ok) and the forest has at least 3 nodes at the end; '
-          'distinct: by the JSON text of the history.')
+          'distinct: by the JSON text of the history. Plus an oracle-only family (300 / 4000 cases): pg.Dict bound to one of '
+          '3 schemata and a pg.Object class whose fields have container defaults (nested Dict fields, List fields with list '
+          'defaults, Any fields, a required field), with or without allow_partial, alone or inside a Dict / List holder, then '
+          '1-8 of clear / del / pop / popitem / assignment or rebind of MISSING / assignment / rebind / update / setdefault on '
+          'the container or a typed sub-container, notification on or off.')
   trusted_base = [
       'resolution glue of state-relative operation descriptions (harness/symcommon.py and '
       'lean/Driver/SymGlue.lean implement the same rules; a disagreement shows up as a dump mismatch)',
       'modelled, not verified: the forest semantics of PgModel/Sym*.lean (tied by correspondence '
       'on generated histories, dump after every step)',
+      'oracle-only (no model, no correspondence): containers bound to a schema with container defaults '
+      '(harness/c01lib.py): re-population of removed keys with fresh default nodes',
       'outside the model: value specs on Dict/List, pg.Ref, contextual/inferred values, user '
       '_on_change/_on_bound overrides (treated as observers), notify_parents=False, tuples',
   ]
@@ -304,6 +311,9 @@ class C01(Prop):
     # (the framework keeps every dump of every case in memory: ~1 MB per long history)
     ex = [ex[i] for i in range(0, len(ex), 37 if tier == 'quick' else 1)]
     yield from ex
+    # oracle-only family: containers bound to a schema with container defaults (harness/c01lib.py)
+    for _ in range(300 if tier == 'quick' else 4000):
+      yield c01lib.gen_case(rng)
 
   def model_request(self, case):
     req = {'op': 'history', 'ops': case['ops']}
@@ -311,6 +321,8 @@ class C01(Prop):
     return req
 
   def impl(self, case):
+    if 'tlib' in case:
+      return c01lib.run_case(case)
     return sc.run_history(case)
 
   def compare(self, case, impl_out, model_out):
@@ -351,6 +363,8 @@ class C01(Prop):
   def nontrivial(self, case, out):
     if not isinstance(out, dict) or 'model' not in out:
       return False
+    if 'tlib' in case:
+      return out.get('effective', 0) >= 1
     steps = out['model']
     effective = sum(1 for s in steps if s['out'] == 'ok')
     last = steps[-1]['dump'] if steps and steps[-1]['dump'] is not None else []
@@ -360,6 +374,16 @@ class C01(Prop):
     h = []
     if not isinstance(out, dict) or 'model' not in out:
       return ['timeout-or-error']
+    if 'tlib' in case:
+      t = case['tlib']
+      h = ['tlib:' + str(out.get('tlib')), 'tlib-holder:' + t['holder'], 'tlib-partial:%s' % t['partial']]
+      for o in t['ops']:
+        h.append('tlib-op:' + o['op'] + ('' if not o['w'] else ':sub'))
+        if not o['n']:
+          h.append('notify-off')
+      if out.get('fail'):
+        h.append('oracle-fail:' + signature(out['fail']))
+      return h
     n = len(case['ops'])
     h.append('len:%s' % ('1-5' if n <= 5 else '6-15' if n <= 15 else '16-30' if n <= 30 else '31+'))
     for j, s in zip(case['ops'], out['model']):
@@ -378,6 +402,15 @@ class C01(Prop):
     return h
 
   def shrink_candidates(self, case):
+    if 'tlib' in case:
+      t = case['tlib']
+      for i in range(len(t['ops']) - 1, -1, -1):
+        yield {'ops': [], 'tlib': dict(t, ops=t['ops'][:i] + t['ops'][i + 1:])}
+      for k in list(t['init']):
+        yield {'ops': [], 'tlib': dict(t, init={a: b for a, b in t['init'].items() if a != k})}
+      if t['holder'] != 'none':
+        yield {'ops': [], 'tlib': dict(t, holder='none')}
+      return
     ops = case['ops']
     for i in range(len(ops) - 1, -1, -1):
       yield {'ops': ops[:i] + ops[i + 1:]}
